@@ -1,6 +1,182 @@
-/-! Driver entry for property C13 (stub: not implemented yet). -/
-namespace HeartwoodModel.Driver.C13
+import HeartwoodModel.Model.Frame
+import HeartwoodModel.Model.Wire
+import HeartwoodModel.Model.ServiceInput
+import HeartwoodModel.Driver.C12
+import HeartwoodModel.Driver.Util
+/-! Driver entry for C13. First token selects the sub-model:
 
-def run (_args : List String) : String := "unimplemented"
+* `a <stream hex> <onion set>` — the byte string is put into a `Deserializer<_, Frame<Message>>` and drained
+  (`Model/Codec`, `Varint`, `Frame`, `Wire`). `onion set`: raw Tor addresses of the stream accepted by the
+  real `OnionAddrV3::from_raw_bytes` (opaque function). Output `n=<frames> kinds=<g|c|t…|-> end=<more|err|panic>
+  left=<unparsed bytes>`; `fuel` if the drain ran out of fuel.
+* `b <sessions> <seeded> <op>…` — a history of the service (`Model/ServiceInput`). `sessions`: comma list of
+  `<peer><state>`, state `c` connected (inbound), `o` connected (outbound), `i` initial, `a` attempted,
+  `d` disconnected (peers 4 and 5 are the persistent ones); `seeded`: repositories seeded by the node (not
+  needed to predict the outcome class). Ops: `r<peer>:<msg>` receive, `x<peer>` the connection to the peer was
+  dropped, `c<peer>` inbound connection. Messages: `n,<announcer>,<sig>,<ts>,<seed>` node announcement,
+  `i,<announcer>,<sig>,<ts>,<rid;…|->` inventory, `f,<announcer>,<sig>,<ts>,<rid>,<remote@at;…|->` refs,
+  `s,<since>,<until>` subscribe, `p,<ponglen>` ping, `q,<len>` pong, `o` info. Announcer 9 is the node itself.
+  Output: one char per op — `o` handled without error, `m` peer disconnected for misbehaviour, `t` peer
+  disconnected for an invalid timestamp, `P` panic (run stops), `-` for `x`/`c` ops; for a ping the char is
+  followed by `+` if a pong is sent.
+* `c <stream hex> <chunk> <graph>` — git request header, same as C12's `h` cases.
+-/
+namespace HeartwoodModel.Driver.C13
+open HeartwoodModel.Driver.Util
+
+/-! ### (a) -/
+section A
+open HeartwoodModel.Codec HeartwoodModel.Frame HeartwoodModel.Wire
+
+def toBytes (l : List Nat) : Bytes := l.map UInt8.ofNat
+
+def parseSet (s : String) : Option (List Bytes) :=
+  if s == "-" then some [] else ((splitOn s ',').mapM hexBytes?).map (·.map toBytes)
+
+def kindChar (f : Frame Msg) : String :=
+  match f.data with
+  | .control _ => "c"
+  | .git _ => "t"
+  | .gossip _ => "g"
+
+def runA (stream : Bytes) (onions : List Bytes) : String :=
+  let env : Env := ⟨fun raw => onions.contains raw⟩
+  let d := Frame.decode (decodeMsg env)
+  let s : Deser := ⟨stream⟩
+  match Deser.drain d (drainFuel s) s with
+  | none => "fuel"
+  | some (items, s', st) =>
+    let kinds := if items.isEmpty then "-" else joinWith "" (items.map kindChar)
+    let e := match st with
+      | .more => "more"
+      | .err => "err"
+      | .panic _ => "panic"
+    s!"n={items.length} kinds={kinds} end={e} left={s'.buf.length}"
+end A
+
+/-! ### (b) -/
+section B
+open HeartwoodModel.ServiceInput
+
+/-- The clock of the test node (fixed by the harness), milliseconds. -/
+def NOW : Nat := 1700000000000
+/-- `Timestamp::MAX` -/
+def TS_MAX : Nat := 9223372036854775807
+
+def peer? (s : String) : Option Nat :=
+  match nat? s with
+  | some n => if n ≤ 9 then some n else none
+  | none => none
+
+def parseSessions (s : String) : Option (List (Nat × SessState)) :=
+  if s == "-" then some [] else
+  (splitOn s ',').mapM fun e =>
+    match e.toList with
+    | [p, st] => do
+      let p ← peer? (String.singleton p)
+      let st ← (match st with
+        | 'c' => some (SessState.connected [] none)
+        | 'o' => some (SessState.connected [] none)
+        | 'i' => some SessState.initial
+        | 'a' => some SessState.attempted
+        | 'd' => if p = 4 ∨ p = 5 then some SessState.disconnected else none
+        | _ => none)
+      some (p, st)
+    | _ => none
+
+def persistent (p : Nat) : Bool := p = 4 || p = 5
+
+def mkSession (p : Nat) (st : SessState) : Session :=
+  { id := p, host := p, routable := true, persistent := persistent p, state := st, queue := [], subscribed := false }
+
+def initState (ss : List (Nat × SessState)) : State :=
+  { self := 9, now := NOW, fetchConcurrency := 1,
+    sessions := fun k => (ss.find? (·.1 == k)).map fun (p, st) => mkSession p st,
+    fetching := fun _ => none,
+    buckets := fun _ => none }
+
+def ts? (s : String) : Option Nat :=
+  match nat? s with
+  | some n => if n ≤ TS_MAX then some n else none
+  | none => none
+
+def parseRefs (s : String) : Option (List RefAt) :=
+  if s == "-" then some [] else
+  (splitOn s ';').mapM fun e =>
+    match splitOn e '@' with
+    | [r, a] => do let r ← peer? r; let a ← nat? a; some (r, a)
+    | _ => none
+
+def parseRids (s : String) : Option (List Nat) :=
+  if s == "-" then some [] else (splitOn s ';').mapM nat?
+
+def parseMsg (s : String) : Option Msg :=
+  match splitOn s ',' with
+  | ["n", an, sig, ts, seed] => do
+    let an ← peer? an; let sig ← bool? sig; let ts ← ts? ts; let seed ← bool? seed
+    some (.announcement { announcer := an, sigOk := sig, timestamp := ts, kind := .node seed })
+  | ["i", an, sig, ts, rids] => do
+    let an ← peer? an; let sig ← bool? sig; let ts ← ts? ts; let rids ← parseRids rids
+    some (.announcement { announcer := an, sigOk := sig, timestamp := ts, kind := .inventory rids })
+  | ["f", an, sig, ts, rid, refs] => do
+    let an ← peer? an; let sig ← bool? sig; let ts ← ts? ts; let rid ← nat? rid; let refs ← parseRefs refs
+    some (.announcement { announcer := an, sigOk := sig, timestamp := ts, kind := .refs rid refs })
+  | ["s", since, until_] => do
+    let since ← ts? since; let until_ ← ts? until_
+    some (.subscribe since until_)
+  | ["p", n] => do let n ← nat? n; if n < 65536 then some (.ping n) else none
+  | ["q", n] => do let n ← nat? n; if n < 65536 then some (.pong n) else none
+  | ["o"] => some .info
+  | _ => none
+
+def parseOp (s : String) : Option Op :=
+  match s.toList with
+  | 'x' :: p => do let p ← peer? (String.ofList p); some (.disconnect p)
+  | 'c' :: p => do let p ← peer? (String.ofList p); some (.connectIn p p true (persistent p))
+  | 'r' :: rest =>
+    match splitOn (String.ofList rest) ':' with
+    | [p, m] => do let p ← peer? p; let m ← parseMsg m; some (.recv p m)
+    | _ => none
+  | _ => none
+
+/-- The oracle used by the driver: the outcome class does not depend on it (`Props/C13.lean`,
+`outcome_env_irrelevant`); the harness keeps histories shorter than the capacity of the rate limiter. -/
+def defaultEnv : Env :=
+  { limited := false, knownNode := fun _ => true, announcedFresh := true, routingSynced := true,
+    seeded := fun _ => true, haveLocal := fun _ => false, wanted := fun _ refs => refs, shuffle := id }
+
+def showStep (σ : State) (op : Op) (o : Outcome) : String :=
+  match op, o with
+  | _, .panic _ => "P"
+  | .recv r (.ping n), .ok => if dispatched defaultEnv σ r && (pongFor n).isSome then "o+" else "o"
+  | .recv _ _, .ok => "o"
+  | .recv _ _, .disconnect .misbehavior => "m"
+  | .recv _ _, .disconnect .invalidTimestamp => "t"
+  | _, _ => "-"
+
+def runOps (σ : State) : List Op → List String
+  | [] => []
+  | op :: ops =>
+    match step Code.current defaultEnv σ op with
+    | (.panic s, _) => [showStep σ op (.panic s)]
+    | (o, σ') => showStep σ op o :: runOps σ' ops
+
+def runB (sessions : String) (ops : List String) : String :=
+  match parseSessions sessions, ops.mapM parseOp with
+  | some ss, some ops =>
+    let σ := initState ss
+    joinWith "" (runOps σ ops)
+  | _, _ => "bad-op"
+end B
+
+def run (args : List String) : String :=
+  match args with
+  | ["a", stream, onions] =>
+    match hexBytes? stream, parseSet onions with
+    | some s, some o => runA (toBytes s) o
+    | _, _ => "bad-op"
+  | "b" :: sessions :: _seeded :: ops => runB sessions ops
+  | ["c", stream, chunk, graph] => HeartwoodModel.Driver.C12.run ["h", stream, chunk, graph]
+  | _ => "bad-op"
 
 end HeartwoodModel.Driver.C13
